@@ -13,8 +13,8 @@ from vlib import Check, tlc, harness, OUT
 C06 = {"handler-invoked-twice", "handler-invoked-for-flush", "duplicate-dispatched", "handler-got-different-message",
        "handler-got-unknown-message", "reply-from-nowhere", "second-reply", "reply-for-wrong-request",
        "reply-before-handler-returned", "result-kind-changed", "unexpected-duptag-error", "malformed-reply",
-       "request-unanswered", "duplicate-unanswered"}
-C07 = {"reply-after-flush-ack", "rflush-before-cancel", "unexpected-flush-reply", "flush-unanswered",
+       "request-unanswered", "duplicate-unanswered", "flushed-reply-answers-new-request"}
+C07 = {"reply-after-flush-ack", "flushed-reply-answers-new-request", "rflush-before-cancel", "unexpected-flush-reply", "flush-unanswered",
        "reply-for-wrong-request", "second-reply"}
 C11 = {"stop-called-twice", "stop-not-called-once", "inflight-not-cancelled"}
 
@@ -85,49 +85,31 @@ def kinds_scenario():
 
 
 def validate_traces(ck, trace_path, classes, runs):
-    """TLC trace validation; on a contract violation report it and re-validate the remaining traces."""
+    """TLC trace validation (ServeTrace.tla): one linear pass over all recorded runs; the spec prints the
+    verdict of every run whose contract state went bad."""
     with open(trace_path) as f:
         lines = f.read().splitlines()
-    # split per run so that one bad trace does not hide the others
-    traces, cur = [], []
+    traces, cur = {}, []
+    n = 0
     for ln in lines:
         cur.append(ln)
         if '"e":"reset"' in ln:
-            traces.append(cur)
+            n += 1
+            traces[n] = cur
             cur = []
-    validated, rounds = 0, 0
-    pending = traces
-    while pending and rounds < 12:
-        rounds += 1
-        text = "\n".join("\n".join(t) for t in pending) + "\n"
-        tp = os.path.join(OUT, "serve-val-%d.ndjson" % os.getpid())
-        with open(tp, "w") as f:
-            f.write(text)
-        r = tlc("server", "ServeTrace", "ServeTrace.cfg", workers=1, timeout=900, env_extra={"TRACE": tp})
-        os.unlink(tp)
-        if r.ok:
-            validated += len(pending)
-            break
-        if r.violation != "ContractHolds":
-            raise vlib.Inconclusive("trace validation failed unexpectedly (%s):\n%s" % (r.violation, r.out[-3000:]))
-        m = None
-        for m in re.finditer(r"/\\ tr = (\d+)", r.out):
-            pass
-        bads = re.findall(r'bad \|-> "([^"]*)"', r.out)
-        bad = [b for b in bads if b][-1] if [b for b in bads if b] else "unknown"
-        k = int(m.group(1)) - 1 if m else 0
-        bad_trace = pending[k]
-        evs = [json.loads(x) for x in bad_trace]
-        scn = evs[0].get("sc", 0)
-        name = runs.get(str(scn), "?")
-        if bad in classes:
-            ck.violation("contract:" + bad, "recorded run %d (scenario %s) breaks the contract: %s" % (scn, name, bad),
+    r = tlc("server", "ServeTrace", "ServeTrace.cfg", workers=1, timeout=1500, env_extra={"TRACE": trace_path}, want_printed=True)
+    if not r.ok:
+        raise vlib.Inconclusive("trace validation failed (%s):\n%s" % (r.violation, r.out[-3000:]))
+    for v in r.printed:
+        evs = [json.loads(x) for x in traces.get(v["tr"], [])]
+        name = runs.get(str(v.get("sc", 0)), "?")
+        if v["bad"] in classes:
+            ck.violation("contract:" + v["bad"], "recorded run %s (scenario %s) breaks the contract: %s" % (v.get("sc"), name, v["bad"]),
                          {"engine": "serve", "scenario": name, "trace": evs})
         else:
-            ck.notes.append("contract class %s seen in scenario %s (belongs to another property)" % (bad, name))
-        validated += k + 1
-        pending = pending[k + 1:]
-    return validated
+            ck.notes.append("contract class %s seen in scenario %s (belongs to another property)" % (v["bad"], name))
+    ck.notes[:] = sorted(set(ck.notes))[:20]
+    return n
 
 
 def _run(pid, tier, classes, families, extra=None):
@@ -172,7 +154,15 @@ def _run(pid, tier, classes, families, extra=None):
         for s in scs:
             f.write(json.dumps(s) + "\n")
     tp = os.path.join(OUT, "serve-tr-%s.ndjson" % pid)
-    doc = harness(["serve", "-scenarios", sp, "-trace", tp], timeout=1500)
+    doc = harness(["serve", "-scenarios", sp, "-trace", tp], timeout=1500, allow_crash=True)
+    if doc.get("crashed"):
+        out = doc["_stdout"]
+        if ("panic:" in out or "fatal error:" in out) and "github.com/frobnitzem/go-p9p" in out and pid == "C11":
+            i = out.index("panic:") if "panic:" in out else out.index("fatal error:")
+            ck.violation("server-process-crashed", "the server process crashed:\n" + out[i:i + 1500], {"stdout": out[i:i + 3000]})
+            ck.add_cov(evaluations=len(scs), distinct_nontrivial=len(scs), samples=scs[:2], traces_validated_against_impl=0)
+            return ck.finish()
+        raise vlib.Inconclusive("serve harness failed rc=%s:\n%s" % (doc.get("rc"), out[-2000:]))
     if doc.get("extra", {}).get("error"):
         raise vlib.Inconclusive("serve harness: " + doc["extra"]["error"])
     runs = doc["extra"].pop("run_names", {})
@@ -215,7 +205,14 @@ def _stoprace(ck, tier):
         raise vlib.Inconclusive("StopRace as-is: TLC found no violation (vacuity guard failed)")
     ck.add_cov(states=r.distinct, transitions=r.generated)
     ck.cov["tlc_runs"] += [{"cfg": "StopRace.cfg", **r.summary()}, {"cfg": "StopRace_asis.cfg", "expected_violation": ra.violation}]
-    doc = harness(["stoprace", "-reps", "2" if tier == "quick" else "8"], timeout=900)
+    doc = harness(["stoprace", "-reps", "2" if tier == "quick" else "8"], timeout=900, allow_crash=True)
+    if doc.get("crashed"):
+        out = doc["_stdout"]
+        if ("panic:" in out or "fatal error:" in out) and "github.com/frobnitzem/go-p9p" in out:
+            i = out.index("panic:") if "panic:" in out else out.index("fatal error:")
+            ck.violation("server-process-crashed", "the server process crashed during shutdown scenarios:\n" + out[i:i + 1500], {"stdout": out[i:i + 3000]})
+            return
+        raise vlib.Inconclusive("stoprace harness failed rc=%s:\n%s" % (doc.get("rc"), out[-2000:]))
     hv = doc.get("violations") or []
     if any(v["tag"] == "harness" for v in hv):
         raise vlib.Inconclusive("stoprace harness problem: %s" % hv[0])
